@@ -399,7 +399,7 @@ fn probes(mon: &mut C09) {
 }
 
 pub fn run(p: &Params) -> Report {
-    let total = p.n(480, 9600);
+    let total = p.n(2400, 60000);
     let mine = p.share(total);
     let mut rng = Rng::new(p.shard_seed() ^ 0xC09);
     let journal = p.journal.as_ref().and_then(|j| std::fs::File::create(j).ok());
